@@ -169,19 +169,20 @@ func (w *Walker) Path(e ast.Expr) string {
 		if o != nil && w.isLocal(o) {
 			return fmt.Sprintf("%s#%d", x.Name, w.ver[o])
 		}
-		return x.Name
+		return selName(o, x.Name)
 	case *ast.ParenExpr:
 		return w.Path(x.X)
 	case *ast.SelectorExpr:
 		if _, ok := w.Info.Uses[x.Sel].(*types.PkgName); ok {
 			return x.Sel.Name
 		}
+		sel := selName(w.Info.ObjectOf(x.Sel), x.Sel.Name)
 		if id, ok := x.X.(*ast.Ident); ok {
 			if _, isPkg := w.Info.Uses[id].(*types.PkgName); isPkg {
-				return id.Name + "." + x.Sel.Name
+				return id.Name + "." + sel
 			}
 		}
-		return w.Path(x.X) + "." + x.Sel.Name
+		return w.Path(x.X) + "." + sel
 	case *ast.IndexExpr:
 		return w.Path(x.X) + "[" + w.Path(x.Index) + "]"
 	case *ast.StarExpr:
@@ -207,6 +208,26 @@ func (w *Walker) Path(e ast.Expr) string {
 		return w.Path(x.X) + "[" + w.Path(x.Low) + ":" + w.Path(x.High) + "]"
 	}
 	return types.ExprString(e)
+}
+
+// NameHook, when set, gives the name under which functions and struct fields are written in paths and atoms (the
+// reference name of a renamed function or field, see core/refnames.go): rules that match an atom against a name
+// then keep matching after a rename.
+var NameHook func(obj types.Object) string
+
+func selName(o types.Object, written string) string {
+	if o == nil || NameHook == nil {
+		return written
+	}
+	switch v := o.(type) {
+	case *types.Func:
+		return NameHook(v)
+	case *types.Var:
+		if v.IsField() {
+			return NameHook(v)
+		}
+	}
+	return written
 }
 
 // PathOfVar gives the canonical path of a variable object at its current version.
